@@ -22,7 +22,7 @@ RULE = ("(a) exhaustive: every condition tree with <= N connective nodes (and/or
         "&,|,~, n-ary) on 3-6 random objects; (c) API spellings (let vs T(From(d)), entity vs an(x, ...), a vs an, "
         "several conditions passed to entity); (d) given domains that hold no instance of the type (empty / other type only) while "
         "instances exist in the process, results consumed while the consumer is inside a symbolic block, conditions whose "
-        "user method constructs a @symbol object. A case is non-trivial when the oracle result is neither empty nor the "
+        "user method constructs a @symbol object; (e) very wide and very deep conditions (and_/or_ with 8-30 operands, 6-14 nested negations, right-deep chains of 8-16 alternating connectives). A case is non-trivial when the oracle result is neither empty nor the "
         "whole domain; distinct = distinct (condition, data, spelling) by structural hash.")
 LEVEL_TEXT = ("Reference-model monitoring at the API boundary: the real query is built and evaluated, its result list is "
               "compared by identity and order with a plain-Python filter of the same domain. All condition trees up to "
@@ -76,6 +76,7 @@ def plan(tier, seed):
     specs = [{"kind": "exh", "size": SIZES[tier], "stride": nsh, "offset": i} for i in range(nsh)]
     n_rand = 1000 if tier == "quick" else 4500
     specs += [{"kind": "rand", "n": n_rand, "sub": i} for i in range(nsh)]
+    specs += [{"kind": "wide", "n": 25 if tier == "quick" else 250, "sub": 500 + i} for i in range(nsh)]
     return specs
 
 
@@ -85,7 +86,7 @@ def floors(tier):
             "re:.*@ElseIf\\.L\\.F": 100, "spelling:direct": 5, "spelling:from": 5,
             "tag:fpred": 5, "tag:cpred": 5, "tag:hastype": 3, "tag:neg>=2": 20, "tag:truth": 20, "tag:in": 20,
             "tag:has": 20, "re:tag:neg:cmp.*": 60, "domain_kind:E": 100, "domain_kind:Q": 300,
-            "domain:empty": 100, "domain:other": 100, "consumed_inside_symbolic_block": 500}
+            "domain:empty": 100, "shape:wide_and": 60, "shape:wide_or": 60, "shape:deep_not": 60, "shape:deep_chain": 60, "domain:other": 100, "consumed_inside_symbolic_block": 500}
 
 
 def cases(spec, ctx):
@@ -93,6 +94,34 @@ def cases(spec, ctx):
         for i, tree in enumerate(C.enumerate_trees(LEAVES, spec["size"])):
             if i % spec["stride"] == spec["offset"]:
                 yield {"k": "exh", "cond": tree}
+        return
+    if spec["kind"] == "wide":
+        # very wide and very deep conditions: and_/or_ with 8-30 operands, 6-14 nested negations, right-deep chains of 8-16
+        # alternating connectives
+        o = dict(C.DEFAULT_OPTS)
+        for i in range(spec["n"]):
+            rng = ctx.rng("w", spec["sub"], i)
+            kind = rng.choice(["P", "Q"])
+            world = D.random_world(rng, np_=(4, 7), nq=(4, 7))
+            leaf = lambda: C.gen_leaf(rng, [kind], o)
+            shape = rng.choice(["wide_and", "wide_or", "deep_not", "deep_chain"])
+            if shape in ("wide_and", "wide_or"):
+                n = rng.randint(8, 30)
+                leaves = [leaf() for _ in range(n)]
+                if shape == "wide_and":     # few of many operands false: keep some rows
+                    leaves = [l if rng.random() < 0.25 else ["or", l, ["cmp", ">=", ["v", 0, [["a", "a"]]], ["lit", 0]]] for l in leaves]
+                cond = ["and" if shape == "wide_and" else "or"] + leaves
+            elif shape == "deep_not":
+                cond = leaf()
+                for _ in range(rng.randint(6, 14)):
+                    cond = [rng.choice(["not", "~"]), cond]
+            else:
+                cond = leaf()
+                for d in range(rng.randint(8, 16)):
+                    cond = [("and", "or")[d % 2], leaf(), cond] if rng.random() < 0.7 else [("and", "or")[d % 2], cond, leaf()]
+            yield {"k": "rand", "shape": shape, "world": world, "kind": kind, "cond": cond, "form": "entity", "how": "let", "quant": "an",
+                   "split": False, "times": rng.choice([1, 2]), "caching": rng.random() < 0.8, "take_first": 0, "in_block": False,
+                   "dom_mode": "normal"}
         return
     for i in range(spec["n"]):
         rng = ctx.rng("r", spec["sub"], i)
@@ -123,6 +152,8 @@ def check_case(case, ctx):
     else:
         exp = H.expected_rows(world, [kind], cond, [0])
     ctx.cls("domain:" + dom_mode)
+    if case.get("shape"):
+        ctx.cls("shape:" + case["shape"])
     if case.get("in_block"):
         ctx.cls("consumed_inside_symbolic_block")
     n_dom = len(world[kind])
